@@ -124,6 +124,44 @@ impl Piece for IntOfLogPoly4 {
     }
 }
 
+/// A USER-DEFINED piece type (the library is generic over `T: Evaluate`): a constant that REJECTS one
+/// argument by panicking — a fault injected through the caller-supplied callback. A caller may catch the
+/// panic and keep using its evaluator; later answers must still be right.
+#[derive(Clone, Debug, PartialEq)]
+pub struct UserPiece {
+    pub tag: f64,
+    pub reject: f64,
+}
+
+impl Evaluate for UserPiece {
+    fn evaluate(&self, x: f64) -> f64 {
+        if x.to_bits() == self.reject.to_bits() {
+            panic!("user piece rejects this argument");
+        }
+        self.tag
+    }
+}
+
+impl Translate for UserPiece {
+    fn translate(&mut self, v: f64) {
+        self.tag += v;
+    }
+}
+
+impl Piece for UserPiece {
+    const NC: usize = 2;
+    fn kind() -> Kind {
+        Kind::U
+    }
+    fn from_c(c: &[f64]) -> Self {
+        UserPiece { tag: c[0], reject: c[1] }
+    }
+    fn bits(&self, out: &mut Vec<u64>) {
+        out.push(self.tag.to_bits());
+        out.push(self.reject.to_bits());
+    }
+}
+
 /// A piecewise function used as the PIECE of another one (`Piecewise<T>` implements `Evaluate`, so
 /// `Piecewise<Piecewise<Poly0>>` is a legal instantiation): two inner segments, numbers `[end0, v0, end1, v1]`.
 impl Piece for Piecewise<Poly0> {
@@ -154,6 +192,8 @@ pub enum Kind {
     I(u8),
     Q,
     W,
+    /// the harness's user-defined piece type (`UserPiece`)
+    U,
 }
 
 impl Kind {
@@ -165,6 +205,7 @@ impl Kind {
             Kind::I(k) => format!("IntOfLog<Poly{k}>"),
             Kind::Q => "IntOfLogPoly4".into(),
             Kind::W => "Piecewise<Poly0>(as a piece)".into(),
+            Kind::U => "UserPiece(constant that panics on one argument)".into(),
         }
     }
     pub fn parse(s: &str) -> Result<Kind, String> {
@@ -177,6 +218,8 @@ impl Kind {
             Ok(Kind::Q)
         } else if s == "Piecewise<Poly0>(as a piece)" {
             Ok(Kind::W)
+        } else if s == "UserPiece(constant that panics on one argument)" {
+            Ok(Kind::U)
         } else if let Some(r) = s.strip_prefix("IntOfLog<Poly").and_then(|r| r.strip_suffix('>')) {
             Ok(Kind::I(digit(r)?))
         } else if let Some(r) = s.strip_prefix("Log<Poly").and_then(|r| r.strip_suffix('>')) {
@@ -195,6 +238,7 @@ impl Kind {
             Kind::I(k) => k as usize + 2,
             Kind::Q => 6,
             Kind::W => 4,
+            Kind::U => 2,
         }
     }
     pub fn all() -> Vec<Kind> {
@@ -211,6 +255,7 @@ impl Kind {
         }
         v.push(Kind::Q);
         v.push(Kind::W);
+        v.push(Kind::U);
         v
     }
     pub fn index(self) -> usize {
@@ -221,6 +266,7 @@ impl Kind {
             Kind::I(k) => 19 + k as usize,
             Kind::Q => 28,
             Kind::W => 29,
+            Kind::U => 30,
         }
     }
 }
@@ -262,6 +308,7 @@ macro_rules! with_kind {
             Kind::I(_) => { type $T = IntOfLog<Poly8>; $body }
             Kind::Q => { type $T = IntOfLogPoly4; $body }
             Kind::W => { type $T = Piecewise<Poly0>; $body }
+            Kind::U => { type $T = $crate::pieces::UserPiece; $body }
         }
     }};
 }
